@@ -20,6 +20,8 @@ def run(tier, rep, work):
     cfgs.append(dict(kind="ivf", metric=rng.choice(["l2", "l2_squared", "cosine"]), dim=rng.randint(2, 32), nlist=rng.choice([8, 16, 32]), nrand=nr,
                      steps=30, seed=C.seed() + 8, gen=False))
     cfgs.append(dict(kind="ivf", metric="l2", dim=rng.randint(2, 16), nlist=rng.choice([3, 6]), nrand=nr // 3, seed=C.seed() + 9, gen=False, mintrain=True))
+    # training vectors repeated where k-means takes its initial centroids: some clusters stay empty through training
+    cfgs.append(dict(kind="ivf", metric=rng.choice(["l2", "l2_squared", "cosine"]), dim=rng.randint(2, 16), nlist=rng.choice([3, 4, 6]), nrand=nr // 2, seed=C.seed() + 10, gen=False, duptrain=True))
     if not quick:
         for i in range(8):
             cfgs.append(dict(kind="ivf", metric=rng.choice(["l2", "l2_squared", "cosine"]), dim=rng.randint(1, 32), nlist=rng.randint(1, 32),
